@@ -630,6 +630,87 @@ def _d_arrays_and_switches():
     return m, [idx, d, we, o]
 
 
+# ---- seeded random hierarchical designs ("gen_<seed>") ------------------------------------------------------------
+_GEN_DOMAINS = ["sync", "pix", "usb", "eth", "aud", "mem", "io", "dsp"]
+_GEN_NAMES = ["s", "t", "data", "q", "v"]
+
+
+def random_design(seed):
+    """A random module tree: registers in up to four clock domains (some declared, most not), signal names from a
+    small pool (clashes), named and anonymous submodules, wrappers, values crossing the hierarchy.
+    Returns (design, ports, info)."""
+    import random
+    from amaranth.hdl import Module, Signal, ClockDomain, DomainRenamer, EnableInserter, ResetInserter
+    rng = random.Random(seed)
+    doms = rng.sample(_GEN_DOMAINS, rng.randint(1, 4))
+    declared = [d for d in doms if rng.random() < 0.3]
+    top = Module()
+    for d in declared:
+        top.domains += ClockDomain(d, reset_less=rng.random() < 0.3)
+    inputs = [Signal(rng.randint(1, 4), name=rng.choice(_GEN_NAMES)) for _ in range(2)]
+    en = Signal(name="en")
+    avail = list(inputs)
+    used = set()
+    info = {"anon": 0, "wrapped": 0, "modules": 0}
+
+    def fill(m, depth):
+        info["modules"] += 1
+        for _ in range(rng.randint(1, 3)):
+            s = Signal(rng.randint(1, 4), name=rng.choice(_GEN_NAMES))
+            d = rng.choice(doms + ["comb"])
+            a, b = rng.choice(avail), rng.choice(avail)
+            m.d[d] += s.eq(rng.choice([a + b, a ^ b, ~a, a & b, a]))
+            if d != "comb":
+                used.add(d)
+            avail.append(s)
+        if depth < 2:
+            for k in range(rng.randint(0, 3 if depth == 0 else 2)):
+                sub = Module()
+                fill(sub, depth + 1)
+                w = rng.random()
+                if w < 0.12:
+                    sub = EnableInserter({d: en for d in doms[:1]})(sub)
+                    info["wrapped"] += 1
+                elif w < 0.2:
+                    sub = ResetInserter({d: en for d in doms[-1:]})(sub)
+                    info["wrapped"] += 1
+                if rng.random() < 0.5:
+                    m.submodules += sub
+                    info["anon"] += 1
+                else:
+                    m.submodules["u%d" % k] = sub
+    fill(top, 0)
+    outs = avail[-rng.randint(1, 3):]
+    ports = inputs + [en] + [o for o in outs if all(o is not i for i in inputs)]
+    info["implicit"] = sorted(used - set(declared))
+    return top, ports, info
+
+
+def _builder(name):
+    if name.startswith("gen_"):
+        seed = int(name[4:])
+        return lambda: random_design(seed)[:2]
+    return CATALOGUE[name][0]
+
+
+def features_of(name):
+    if name.startswith("gen_"):
+        import warnings
+        with warnings.catch_warnings():
+            warnings.simplefilter("ignore")
+            info = random_design(int(name[4:]))[2]
+        f = []
+        if len(info["implicit"]) >= 2:
+            f.append(F_IMP)
+        f.append(F_CLASH)
+        if info["anon"]:
+            f.append(F_ANON)
+        if info["wrapped"]:
+            f.append(F_WRAP)
+        return tuple(f) + (F_XHIER,)
+    return CATALOGUE[name][1]
+
+
 # ---- designs of the ElabOrder family, as printed by TLC (see spec/ElabOrder.tla) ---------------------------------
 def build_model_design(rec):
     """rec: the design record of ElabOrder (sigs, declared, ports, frags) -> (top Fragment, ports, signals)."""
@@ -1179,7 +1260,7 @@ def run_plan_history(name, scratch):
 def convert_history(name, outdir=None):
     import warnings
     from amaranth.back import rtlil
-    fn = CATALOGUE[name][0]
+    fn = _builder(name)
     ev = []
     with warnings.catch_warnings():
         warnings.simplefilter("ignore")
@@ -1246,3 +1327,400 @@ def _child_main():
             out["errors"].append(["model", json.dumps(rec.get("feat")), traceback.format_exc()[-1500:]])
     with open(job["result"], "w") as f:
         json.dump(out, f, default=repr)
+
+
+# =================================================================================================================
+# parent: TLC stages, children, histories, verdicts
+# =================================================================================================================
+CFG_ELAB = """SPECIFICATION Spec
+CONSTANTS SortedDomains = {sorted}
+ AsSet = {asset}
+ MaxImplicit = {maximp}
+ SpreadChoices = {{TRUE, FALSE}}
+ ClashChoices = {clash}
+ AnonChoices = {anon}
+ Emit = {emit}
+{invs}
+CHECK_DEADLOCK FALSE
+"""
+
+CFG_REPRO = """SPECIFICATION Spec
+CONSTANTS Designs = {{"d"}}
+ Kinds = {kinds}
+ Procs = {procs}
+ SeedOf <- SeedOfDef
+ Phases = {phases}
+ Digests = {{1, 2}}
+ MaxObs = {maxobs}
+ Mutant = "{mutant}"
+{invs}
+CHECK_DEADLOCK FALSE
+"""
+
+CFG_TRACE = """SPECIFICATION Spec
+INVARIANT AcceptedIsReproducible
+CHECK_DEADLOCK FALSE
+"""
+
+BOTH = "{TRUE, FALSE}"
+KINDS_SAME = '{"rtlil", "sim_trace"}'
+KINDS_LINK = '{"init_state", "post_reset_state", "plan_files", "extract_listing"}'
+
+
+def _inv(*names):
+    return "\n".join("INVARIANT " + n for n in names)
+
+
+def _plainv(v):
+    if isinstance(v, dict):
+        return {k: _plainv(x) for k, x in v.items()}
+    if isinstance(v, (tuple, list)):
+        return [_plainv(x) for x in v]
+    return v
+
+
+def _emitted(r):
+    """DESIGN and OUT values printed by ElabOrder: ({featkey: design}, {featkey: [out, ...]})."""
+    from .. import tlaval
+    designs, outs = {}, {}
+    for txt in r.printed():
+        head = txt.lstrip("< \n")
+        if head.startswith('"DESIGN"'):
+            v = tlaval.parse(txt)
+            d = _plainv(v[1])
+            designs[json.dumps(d["feat"], sort_keys=True)] = d
+        elif head.startswith('"OUT"'):
+            v = tlaval.parse(txt)
+            o = _plainv(v[2])
+            lst = outs.setdefault(json.dumps(_plainv(v[1]), sort_keys=True), [])
+            if o not in lst:
+                lst.append(o)
+    return designs, outs
+
+
+def stage_target(ctx):
+    """TLC on ElabOrder.  Returns (family designs, canonical outputs, all outputs of the unsorted construction)."""
+    from concurrent.futures import ThreadPoolExecutor
+    OI, NI, WF = "OutputIndependentOfPickOrder", "NamesIndependentOfPickOrder", "WellFormed"
+    full = dict(maximp=3, clash=BOTH, anon=BOTH, emit="FALSE", asset="{}")
+    jobs = [
+        # name, cfg parameters, invariants, expected violation, actions that must fire
+        ("sorted", dict(full, sorted="TRUE", emit="TRUE"), (OI, NI, WF), None, ["PickOrdered", "Advance"]),
+        ("unsorted-all-outputs", dict(full, sorted="FALSE", emit="TRUE"), (WF,), None, ["PickOrdered", "PickFromSet", "Advance"]),
+        ("mutant-unsorted-domains", dict(full, sorted="FALSE"), (OI,), OI, None),
+        ("unsorted-at-most-1-implicit", dict(full, sorted="FALSE", maximp=1), (OI, NI, WF), None, ["PickFromSet"]),
+        ("hyp-used-signals-order", dict(full, sorted="TRUE", asset='{"used_signals"}'), (OI,), OI, None),
+        ("hyp-used-signals-names-no-clash", dict(full, sorted="TRUE", asset='{"used_signals"}', clash="{FALSE}"), (NI, WF), None, ["PickFromSet"]),
+        ("hyp-used-signals-names-clash", dict(full, sorted="TRUE", asset='{"used_signals"}', clash="{TRUE}"), (NI,), NI, None),
+        ("hyp-subfragments-order", dict(full, sorted="TRUE", asset='{"subfragments"}'), (OI,), OI, None),
+        ("hyp-subfragments-names-named", dict(full, sorted="TRUE", asset='{"subfragments"}', clash="{FALSE}", anon="{FALSE}"), (NI, WF), None, ["PickFromSet"]),
+        ("hyp-subfragments-names-anon", dict(full, sorted="TRUE", asset='{"subfragments"}', clash="{FALSE}", anon="{TRUE}"), (NI,), NI, None),
+        ("hyp-stmt-domains-order", dict(full, sorted="TRUE", asset='{"stmt_domains"}'), (OI,), OI, None),
+        ("hyp-stmt-domains-names", dict(full, sorted="TRUE", asset='{"stmt_domains"}'), (NI, WF), None, ["PickFromSet"]),
+    ]
+
+    def one(j):
+        name, par, invs, expect, acts = j
+        return ctx.tlc("ElabOrder", stage="target/" + name, cfg_text=CFG_ELAB.format(invs=_inv(*invs), **par), workers=2,
+                       expect_violation=expect, count=expect is None, args=("-coverage", "1") if expect is None else (),
+                       timeout=900)
+    with ThreadPoolExecutor(6) as ex:
+        res = list(ex.map(one, jobs))
+    for j, r in zip(jobs, res):
+        if j[4]:
+            ctx.require_actions(r, j[4], "target/" + j[0])
+    designs, canon = _emitted(res[0])
+    _d2, alls = _emitted(res[1])
+    if len(designs) != 32 or set(canon) != set(designs) or any(len(v) != 1 for v in canon.values()) or set(alls) != set(designs):
+        raise MachineryError("ElabOrder did not print its family (%d designs, %d canonical outputs)" % (len(designs), len(canon)))
+    ctx.cov["targeting"] = {
+        "missing_domains (set difference, real)": "order sensitive iff >= 2 implicitly created domains: port list, hence RTLIL bytes",
+        "used_signals (hypothetical set)": "declaration order with >= 2 signals; the assignment of $n suffixes only with name clashes",
+        "subfragments (hypothetical set)": "cell order with >= 2 submodules; names only with anonymous submodules (U$n) or clashes",
+        "stmt_domains (hypothetical set)": "cell order in fragments driving >= 2 domains; never the names",
+        "catalogue must therefore contain": [F_IMP, F_CLASH, F_ANON, F_XHIER],
+    }
+    return designs, {k: v[0] for k, v in canon.items()}, alls
+
+
+def stage_monitor(ctx):
+    from concurrent.futures import ThreadPoolExecutor
+    th = ctx.thorough
+    P3, P2 = "{0, 1, 2}", "{0, 1}"
+    PH2, PH1 = '{"first", "rerun"}', '{"first"}'
+    ALL = ("SameKeySameDigest", "ResetRestoresInit", "ExtractMatchesPlan", "MonitorExact")
+    jobs = [
+        ("same-key", dict(kinds=KINDS_SAME, procs=P3, phases=PH2, maxobs=4 if th else 3, mutant=""), ALL, None),
+        ("links", dict(kinds=KINDS_LINK, procs=P2, phases=PH1, maxobs=4 if th else 3, mutant=""), ALL, None),
+        ("any-producer-same-key", dict(kinds=KINDS_SAME, procs=P3, phases=PH2, maxobs=3, mutant="any"), ("MonitorExact",), None),
+        ("any-producer-links", dict(kinds=KINDS_LINK, procs=P2, phases=PH1, maxobs=4 if th else 3, mutant="any"), ("MonitorExact",), None),
+        ("mutant-hash-seed", dict(kinds=KINDS_SAME, procs=P3, phases=PH1, maxobs=3, mutant="hash_seed_dependent"), ("SameKeySameDigest",), "SameKeySameDigest"),
+        ("mutant-rerun", dict(kinds=KINDS_SAME, procs=P2, phases=PH2, maxobs=3, mutant="rerun_dependent"), ("SameKeySameDigest",), "SameKeySameDigest"),
+        ("mutant-reset", dict(kinds=KINDS_LINK, procs=P2, phases=PH1, maxobs=3, mutant="reset_leaves_state"), ("ResetRestoresInit",), "ResetRestoresInit"),
+        ("mutant-extract", dict(kinds=KINDS_LINK, procs=P2, phases=PH1, maxobs=3, mutant="extract_skips_file"), ("ExtractMatchesPlan",), "ExtractMatchesPlan"),
+    ]
+
+    def one(j):
+        name, par, invs, expect = j
+        return ctx.tlc("Repro", stage="monitor/" + name, cfg_text=CFG_REPRO.format(invs=_inv(*invs), **par), workers=2,
+                       expect_violation=expect, count=expect is None, args=("-coverage", "1") if expect is None else (),
+                       timeout=1800)
+    with ThreadPoolExecutor(6) as ex:
+        res = list(ex.map(one, jobs))
+    for j, r in zip(jobs, res):
+        if j[3] is None:
+            ctx.require_actions(r, ["Observe"], "monitor/" + j[0])
+
+
+_CHILD = "import sys; sys.path.insert(0, %r); from harness.props import c09; c09._child_main()"
+
+
+def run_children(ctx, seeds, job, tag):
+    """One fresh interpreter per entry of `seeds` (proc = position); returns the list of their results."""
+    from concurrent.futures import ThreadPoolExecutor
+
+    def one(args):
+        p, seed = args
+        d = os.path.join(ctx.tmp, "%s_p%d" % (tag, p))
+        os.makedirs(d, exist_ok=True)
+        jp = os.path.join(d, "job.json")
+        rp = os.path.join(d, "result.json")
+        with open(jp, "w") as f:
+            json.dump(dict(job, outdir=d, result=rp), f)
+        env = {"PATH": os.environ.get("PATH", "/usr/bin:/bin"), "PYTHONHASHSEED": str(seed), "PYTHONPATH": REPO,
+               "VERIF_REPO": REPO, "C09_JOB": jp, "HOME": d, "TMPDIR": d, "AMARANTH_VERIF": "1"}
+        pr = subprocess.run([sys.executable, "-c", _CHILD % VERIF], env=env, cwd=d, stdout=subprocess.PIPE,
+                            stderr=subprocess.STDOUT, text=True, timeout=3000)
+        if pr.returncode != 0 or not os.path.exists(rp):
+            raise MachineryError("child interpreter %d (PYTHONHASHSEED=%s) failed:\n%s" % (p, seed, pr.stdout[-3000:]))
+        res = json.load(open(rp))
+        if res["hashseed"] != str(seed):
+            raise MachineryError("child interpreter did not get its hash seed")
+        res["dir"] = d
+        return res
+    with ThreadPoolExecutor(min(len(seeds), 8)) as ex:
+        out = list(ex.map(one, list(enumerate(seeds))))
+    errs = [(p, e) for p, r in enumerate(out) for e in r["errors"]]
+    if errs:
+        raise MachineryError("%d builder(s) failed in child interpreters; first: interpreter %d, %s %s\n%s" % (
+            len(errs), errs[0][0], errs[0][1][0], errs[0][1][1], errs[0][1][2]))
+    return out
+
+
+class _Intern:
+    def __init__(self):
+        self.d = {}
+
+    def __call__(self, digest):
+        return self.d.setdefault(digest, len(self.d) + 1)
+
+
+def build_histories(results, seeds, names):
+    """Observe events in the order: interpreter 0 (all its phases), interpreter 1, ...  One history per
+    (family, design).  Returns (histories for TLC, meta)."""
+    intern = _Intern()
+    hs, meta = [], []
+    for fam in ("rtlil", "sim", "plan"):
+        for name in names[fam]:
+            events, raw = [], []
+            for p, (res, seed) in enumerate(zip(results, seeds)):
+                for ev in res[fam][name]:
+                    kind, phase, digest = ev[0], ev[1], ev[2]
+                    if kind == "skip":
+                        continue
+                    events.append({"design": name, "kind": kind, "proc": p, "seed": seed, "phase": phase,
+                                   "digest": intern(kind[:4] + digest if fam != "plan" or kind in ("plan_digest", "archive_bytes") else digest)})
+                    raw.append((p, seed, kind, phase, digest, ev[3] if len(ev) > 3 else None))
+            hs.append({"events": events})
+            meta.append({"family": fam, "name": name, "raw": raw})
+    return hs, meta
+
+
+def _first_difference(a, b):
+    la, lb = a.split("\n"), b.split("\n")
+    for i, (x, y) in enumerate(zip(la, lb)):
+        if x != y:
+            return "line %d: %r  vs  %r" % (i + 1, x.strip()[:100], y.strip()[:100])
+    return "lengths differ: %d vs %d lines" % (len(la), len(lb))
+
+
+def _describe(m, step, clause, results):
+    raw = m["raw"]
+    p, seed, kind, phase, digest, payload = raw[step - 1]
+    firsts = [r for r in raw if r[2] == kind]
+    if clause.startswith("reset_") or clause.startswith("extract_"):
+        partner = {"post_reset_state": "init_state", "init_state": "post_reset_state", "extract_listing": "plan_files",
+                   "plan_files": "extract_listing"}[kind]
+        firsts = [r for r in raw if r[2] == partner]
+    f = firsts[0]
+    per_seed = {}
+    for r in raw:
+        if r[2] == kind:
+            per_seed.setdefault(r[4][:10], []).append("p%d/seed%s/%s" % (r[0], r[1], r[3]))
+    txt = "%s %s: clause %s: observation %s of interpreter %d (PYTHONHASHSEED=%s, phase %s) has digest %s, but %s of interpreter %d " \
+          "(PYTHONHASHSEED=%s, phase %s) had %s.  %d distinct digest(s) of %s in this history: %s" % (
+              m["family"], m["name"], clause, kind, p, seed, phase, digest[:12], f[2], f[0], f[1], f[3], f[4][:12],
+              len(per_seed), kind, json.dumps(per_seed)[:600])
+    if m["family"] == "rtlil":
+        txt += "\n  top-level ports there: %s\n  top-level ports here:  %s" % (f[5], payload)
+        try:
+            a = open(os.path.join(results[f[0]]["dir"], m["name"] + ".il")).read()
+            b = open(os.path.join(results[p]["dir"], m["name"] + ".il")).read()
+            if a != b:
+                txt += "\n  first difference of the two RTLIL texts: " + _first_difference(a, b)
+        except OSError:
+            pass
+    elif payload is not None and f[5] is not None and kind != "sim_trace":
+        txt += "\n  there: %s\n  here:  %s" % (json.dumps(f[5])[:400], json.dumps(payload)[:400])
+    elif kind == "sim_trace":
+        for k in sorted(payload):
+            if payload[k] != f[5].get(k):
+                i = next((i for i, (x, y) in enumerate(zip(payload[k], f[5][k])) if x != y), min(len(payload[k]), len(f[5][k])))
+                txt += "\n  testbench %r: observation %d differs: there %s, here %s" % (k, i, f[5][k][i:i + 1], payload[k][i:i + 1])
+                break
+    return txt
+
+
+def _feature(fam, name):
+    fs = features_of(name) if fam == "rtlil" else PLANS[name][1] if fam == "plan" else ("simulation",)
+    return F_IMP if F_IMP in fs else fs[0]
+
+
+def judge(ctx, results, seeds, names, stage):
+    from .. import tracecheck
+    hs, meta = build_histories(results, seeds, names)
+    verdicts = tracecheck.validate(ctx, "ReproTrace", hs, stage, cfg=CFG_TRACE)
+    n_rej = 0
+    for v, m, h in zip(verdicts, meta, hs):
+        for e in h["events"]:
+            ctx.case((m["family"], m["name"], e["kind"], e["proc"], e["phase"]))
+        if v[0] == "REJ":
+            n_rej += 1
+            step, clause = v[1], v[2]
+            key = {"clause": clause, "design": m["name"], "feature": _feature(m["family"], m["name"])}
+            ctx.violation(key, _describe(m, step, clause, results),
+                          replay={"family": m["family"], "name": m["name"], "seeds": seeds, "clause": clause})
+    return hs, meta, verdicts
+
+
+def model_agreement(ctx, results, designs, canon, alls):
+    """Coverage only: the real Fragment.prepare() on the designs of ElabOrder's family against the model's outputs."""
+    keys = sorted(designs)
+    n = in_model = eq_canon = 0
+    first_bad = None
+    for res in results:
+        for k, real in zip(keys, res["model"]):
+            n += 1
+            proj = lambda o: {f: o[f] for f in ("created", "ports", "wires", "subnames")}
+            if any(proj(o) == real for o in alls[k]):
+                in_model += 1
+            elif first_bad is None:
+                first_bad = {"design": json.loads(k), "real": real}
+            if proj(canon[k]) == real:
+                eq_canon += 1
+    ctx.cov["model_agreement"] = {
+        "what": "port list, created domains, wire names per fragment, submodule names of Fragment.prepare() on the 32 designs of "
+                "ElabOrder's family, in every child interpreter",
+        "elaborations": n, "output_is_one_of_the_models_outputs (SortedDomains=FALSE)": in_model,
+        "output_equals_canonical (SortedDomains=TRUE)": eq_canon}
+    if first_bad is not None:
+        ctx.notes.append("ElabOrder disagrees with the code on a family design (coverage note, not a violation): %s" % json.dumps(first_bad)[:800])
+
+
+def run(ctx):
+    th = ctx.thorough
+    designs, canon, alls = stage_target(ctx)
+    stage_monitor(ctx)
+
+    # ---------------- histories ----------------------------------------------------------------------------------
+    seeds = [0, 0] + (list(range(1, 16)) if th else [1, 2, 3])        # interpreters 0 and 1 share a hash seed
+    if ctx.seed:
+        seeds = seeds[:2] + [1000 * ctx.seed + s for s in seeds[2:]]
+    n_gen = 300 if th else 16
+    gen0 = 1000 * ctx.seed
+    names = {"rtlil": sorted(CATALOGUE) + ["gen_%d" % (gen0 + k) for k in range(n_gen)], "sim": sorted(SIMS), "plan": sorted(PLANS)}
+    have = {}
+    for n in names["rtlil"]:
+        for f in features_of(n):
+            have[f] = have.get(f, 0) + 1
+    for f in ctx.cov["targeting"]["catalogue must therefore contain"]:
+        if have.get(f, 0) < 5:
+            raise MachineryError("the design catalogue does not aim at feature %s (only %d designs)" % (f, have.get(f, 0)))
+    ctx.cov["catalogue_features"] = have
+    job = dict(names, model=[designs[k] for k in sorted(designs)])
+    results = run_children(ctx, seeds, job, "hist")
+    skipped = sorted({(n, e[2]) for r in results for n, evs in r["rtlil"].items() for e in evs if e[0] == "skip"})
+    if skipped:
+        ctx.notes.append("converting the same object twice is not supported for: %r" % skipped[:5])
+    if not all(any(e[0] == "post_reset_state" for e in results[0]["sim"][n]) for n in names["sim"]):
+        ctx.notes.append("engine-level state was not available: ResetRestoresInit judged on the testbench view only")
+    model_agreement(ctx, results, designs, canon, alls)
+    hs, meta, verdicts = judge(ctx, results, seeds, names, "histories")
+    ctx.cov["stages"]["histories/validate"].update({
+        "interpreters": len(seeds), "hash_seeds": sorted(set(seeds)), "rtlil_designs": len(names["rtlil"]),
+        "simulations": len(names["sim"]), "build_plans": len(names["plan"]),
+        "observe_events": sum(len(h["events"]) for h in hs), "rejected_histories": sum(v[0] == "REJ" for v in verdicts)})
+    ctx.sample({"history": meta[0]["family"] + ":" + meta[0]["name"], "events": hs[0]["events"][:5]})
+    k = next(i for i, m in enumerate(meta) if m["family"] == "sim")
+    ctx.sample({"history": "sim:" + meta[k]["name"], "events": hs[k]["events"][:10]})
+    k = next(i for i, m in enumerate(meta) if m["family"] == "plan")
+    ctx.sample({"history": "plan:" + meta[k]["name"], "events": hs[k]["events"][:11]})
+
+    # ---------------- binding demonstration: corrupted histories must be rejected --------------------------------
+    from .. import tracecheck
+    bad = []
+    want = []
+    big = 1 << 20
+    for fam, kind, clause in (("rtlil", "rtlil", "rtlil_differs"), ("sim", "post_reset_state", "reset_does_not_restore_initial_state"),
+                              ("sim", "sim_trace", "sim_trace_differs"), ("plan", "extract_listing", "extract_differs_from_planned_files"),
+                              ("plan", "archive_bytes", "archive_bytes_differs")):
+        src = next((h for h, m, v in zip(hs, meta, verdicts) if m["family"] == fam and v[0] == "ACC"
+                    and any(e["kind"] == kind for e in h["events"])), None)
+        if src is None:
+            continue
+        ev = [dict(e) for e in src["events"]]
+        idx = [i for i, e in enumerate(ev) if e["kind"] == kind]
+        ev[idx[-1] if kind in ("post_reset_state", "extract_listing") else idx[len(idx) // 2]]["digest"] = big
+        bad.append({"events": ev})
+        want.append(clause)
+    if len(bad) < 3:
+        raise MachineryError("binding demo: not enough accepted histories to corrupt (%d)" % len(bad))
+    vs = tracecheck.validate(ctx, "ReproTrace", bad, "binding-demo", cfg=CFG_TRACE, count_states=False)
+    ctx.cov["traces_validated_against_impl"] -= len(bad)
+    for v, w in zip(vs, want):
+        if v[0] != "REJ" or not str(v[2]).startswith(w):
+            raise MachineryError("binding demo: corrupted history not rejected as %s: %r" % (w, v))
+    ctx.cov["stages"]["binding-demo/validate"]["corrupted_rejected"] = [list(map(str, v)) for v in vs]
+
+    ctx.cov["exhaustive"] = False
+    ctx.cov["rule"] = ("case = one Observe event = (design, artefact kind, interpreter, phase); all distinct.  RTLIL: %d catalogue designs + %d "
+                       "seeded random designs x %d interpreters x {first, same object again, rebuilt}; simulations: %d x %d interpreters x "
+                       "{fresh, fresh again, reset+rerun, partial run+reset+rerun}; build plans: %d x %d interpreters"
+                       % (len(CATALOGUE), n_gen, len(seeds), len(SIMS), len(seeds), len(PLANS), len(seeds)))
+    ctx.assume("RTLIL `src` attributes are part of the compared bytes: every interpreter builds the designs from the same source file")
+    ctx.assume("the state right after reset() is read through private attributes of the Python engine (slots, timeline); "
+               "the testbench view at time 0 is compared in addition (public API)")
+    ctx.assume("observations made inside user processes are not compared (spurious wake-ups are documented as unspecified); "
+               "processes only drive signals, testbenches observe")
+    ctx.assume("wall-clock independence of archive() is probed by shifting time.time() by three days inside one interpreter "
+               "and by the different start times of the interpreters")
+
+
+def replay(ctx, rep):
+    r = rep["replay"]
+    fam, name, seeds = r["family"], r["name"], r["seeds"]
+    names = {"rtlil": [], "sim": [], "plan": []}
+    names[fam] = [name]
+    results = run_children(ctx, seeds, dict(names, model=[]), "replay")
+    hs, meta, verdicts = judge(ctx, results, seeds, names, "replay")
+    print("replay verdict:", verdicts[0])
+    for e, raw in zip(hs[0]["events"], meta[0]["raw"]):
+        print("  Observe(<<%s, %s>>, interpreter %d seed %s %s) = %s" % (name, e["kind"], e["proc"], e["seed"], e["phase"], raw[4][:16]))
+    import shutil
+    if verdicts[0][0] == "REJ":
+        print(ctx.violations[0][1] if ctx.violations else "(known finding)")
+        print("VIOLATION property=C09 replay=(same)")
+        shutil.rmtree(ctx.tmp, ignore_errors=True)
+        return 1
+    shutil.rmtree(ctx.tmp, ignore_errors=True)
+    return 0
